@@ -4,6 +4,7 @@ import (
 	"fmt"
 	"math/rand"
 	"net"
+	"runtime"
 	"strings"
 	"sync"
 	"sync/atomic"
@@ -199,7 +200,7 @@ type c12Stream struct{}
 func (c12Stream) Name() string               { return "c12" }
 func (c12Stream) CaseTimeout() time.Duration { return 60 * time.Second }
 func (c12Stream) Rule() string {
-	return "Stop relative to Run: K connections (0..8) with handlers blocked or slow and a slow OnClose callback, clients leaving right after Stop is called; Stop before Run; two concurrent Stops and a third afterwards; and the scripted accept race (a connection accepted, Stop runs to completion, then Run continues); oracle, sampled the instant Stop has returned and Run has returned: the port refuses connections and can be bound again, no handler is running, every accepted connection has been closed and its OnClose has completed; non-trivial = at least one connection or a scripted race, distinct by scenario"
+	return "Stop relative to Run: K connections (0..8) with handlers blocked or slow and a slow OnClose callback, clients leaving right after Stop is called; Stop before Run; two concurrent Stops and a third afterwards; clients that send requests and hang up without reading; Run and Stop started together 1500 times with random head starts; and the scripted accept race (a connection accepted, Stop runs to completion, then Run continues); oracle, sampled the instant Stop has returned and Run has returned: the port refuses connections and can be bound again, no handler is running, every accepted connection has been closed and its OnClose has completed; non-trivial = at least one connection or a scripted race, distinct by scenario"
 }
 
 func (c12Stream) Generate(rng *rand.Rand, n int, thorough bool) []Case {
@@ -211,10 +212,14 @@ func (c12Stream) Generate(rng *rand.Rand, n int, thorough bool) []Case {
 		case 1:
 			cs = append(cs, Case{Line: fmt.Sprintf("c12 kind=stopTwice conns=%d", rng.Intn(4)), Kind: "stopTwice"})
 		case 2:
-			cs = append(cs, Case{Line: "c12 kind=acceptRace", Kind: "acceptRace"})
+			if rng.Intn(2) == 0 {
+				cs = append(cs, Case{Line: fmt.Sprintf("c12 kind=startRace attempts=%d seed=%d", 1500, rng.Intn(1<<30)), Kind: "startRace"})
+			} else {
+				cs = append(cs, Case{Line: "c12 kind=acceptRace", Kind: "acceptRace"})
+			}
 		default:
-			cs = append(cs, Case{Line: fmt.Sprintf("c12 kind=quiescent conns=%d inflight=%s slowclose=%d", 1+rng.Intn(8),
-				[]string{"none", "blocked", "slow"}[rng.Intn(3)], rng.Intn(2)), Kind: "quiescent"})
+			cs = append(cs, Case{Line: fmt.Sprintf("c12 kind=quiescent conns=%d inflight=%s slowclose=%d hangup=%d", 1+rng.Intn(8),
+				[]string{"none", "blocked", "slow"}[rng.Intn(3)], rng.Intn(2), rng.Intn(2)), Kind: "quiescent"})
 		}
 	}
 	return cs
@@ -276,6 +281,48 @@ func (c12Stream) Impl(c Case) string {
 			fail("Stop before Run: the port is still bound after Stop and Run have both returned")
 		}
 		_ = srv.Stop()
+		return verdict
+	}
+	if p["kind"] == "startRace" {
+		// Run and Stop started together, with a random head start for either: whichever way the race goes, once
+		// both have returned the port is free
+		curTracer.Store(NewTracer())
+		rng := rand.New(rand.NewSource(int64(atoi(p["seed"]))))
+		addr := freeAddr()
+		for i := 0; i < atoi(p["attempts"]) && verdict == "ok"; i++ {
+			srv, _ := gldap.NewServer(gldap.WithLogger(hclog.NewNullLogger()))
+			errc := make(chan error, 1)
+			spinRun, spinStop := rng.Intn(40), rng.Intn(40)
+			go func() {
+				for j := 0; j < spinRun; j++ {
+					runtime.Gosched()
+				}
+				errc <- srv.Run(addr)
+			}()
+			for j := 0; j < spinStop; j++ {
+				runtime.Gosched()
+			}
+			stopped := make(chan struct{})
+			go func() { _ = srv.Stop(); close(stopped) }()
+			select {
+			case <-stopped:
+			case <-time.After(5 * time.Second):
+				fail("start race attempt %d: Stop did not return", i)
+				continue
+			}
+			select {
+			case e := <-errc:
+				if e != nil {
+					fail("start race attempt %d: Run returned an error: %v", i, e)
+				}
+			case <-time.After(5 * time.Second):
+				fail("start race attempt %d: Run did not return after Stop", i)
+				continue
+			}
+			if verdict == "ok" && !portFree(addr) {
+				fail("start race attempt %d: the port is still bound after Stop and Run have both returned", i)
+			}
+		}
 		return verdict
 	}
 	sut, err := startServer(allRoutes(h, nil, nil), nil, oc)
@@ -345,6 +392,12 @@ func (c12Stream) Impl(c Case) string {
 			return "harness-error " + err.Error()
 		}
 		clients = append(clients, cl)
+		if p["hangup"] == "1" && p["kind"] == "quiescent" {
+			// a client that sends its requests and hangs up without waiting for any response
+			_ = cl.send(append(opFrame("search", 1), opFrame("search", 2)...))
+			cl.close()
+			continue
+		}
 		_ = cl.send(append(opFrame("bind", 1), opFrame("search", 2)...))
 		if _, err := cl.readFrame(5 * time.Second); err != nil {
 			return "harness-error bind response: " + err.Error()
